@@ -72,16 +72,23 @@ type ValOpts struct {
 	Unsupported bool // allow unsupported kinds
 	Recursive   bool // allow the declared recursive types
 	Specials    bool // big numbers, times, urls, media/node/edge
+	// Shared: pointers, and interfaces holding pointers or maps, may refer to
+	// data that already exists in the value - shared substructures and cycles.
+	// Only meaningful with Iterator.RecursionSupport on (without it the library
+	// documents that cyclic data is not supported).
+	Shared bool
 }
 
 func DrawValOpts(t *tape.Tape) ValOpts {
-	return ValOpts{MaxDepth: 1 + t.Intn("vo-depth", 4), Recursive: t.Bool("vo-rec"), Specials: t.Bool("vo-special")}
+	return ValOpts{MaxDepth: 1 + t.Intn("vo-depth", 4), Recursive: t.Bool("vo-rec"), Specials: t.Bool("vo-special"), Shared: t.Chance("vo-shared", 1, 3)}
 }
 
 type vgen struct {
-	t  *tape.Tape
-	o  ValOpts
-	ok bool
+	t      *tape.Tape
+	o      ValOpts
+	ok     bool
+	refs   []reflect.Value // pointers and maps created so far (candidates for sharing and cycles)
+	shared int
 }
 
 // DrawValue draws a type and a value of it.
@@ -330,6 +337,13 @@ func (g *vgen) fill(v reflect.Value, depth int) {
 	case reflect.String:
 		v.SetString(g.str())
 	case reflect.Interface:
+		if g.o.Shared && len(g.refs) > 0 && t.Chance("v-sharediface", 1, 5) {
+			// an interface holding an existing pointer or map (possibly an
+			// ancestor: a cycle through an interface)
+			v.Set(g.refs[t.Intn("v-sharediface-which", len(g.refs))])
+			g.shared++
+			return
+		}
 		switch t.Intn("v-iface", 6) {
 		case 0:
 		case 1:
@@ -376,6 +390,9 @@ func (g *vgen) fill(v reflect.Value, depth int) {
 			return
 		}
 		m := reflect.MakeMap(v.Type())
+		if g.o.Shared {
+			g.refs = append(g.refs, m)
+		}
 		// at most one entry: Go map iteration order cannot be seeded
 		if t.Bool("v-mapentry") && depth < g.o.MaxDepth+2 {
 			k := reflect.New(v.Type().Key()).Elem()
@@ -389,7 +406,19 @@ func (g *vgen) fill(v reflect.Value, depth int) {
 		if t.Chance("v-nilptr", 1, 5) || depth >= g.o.MaxDepth+3 {
 			return
 		}
+		if g.o.Shared && t.Chance("v-sharedptr", 1, 4) {
+			// point at something that already exists: a sibling (shared data) or
+			// an ancestor still being filled (a cycle)
+			for i := len(g.refs) - 1; i >= 0; i-- {
+				if g.refs[i].Type() == v.Type() {
+					v.Set(g.refs[i])
+					g.shared++
+					return
+				}
+			}
+		}
 		p := reflect.New(v.Type().Elem())
+		g.refs = append(g.refs, p)
 		g.fill(p.Elem(), depth+1)
 		v.Set(p)
 	case reflect.Struct:
